@@ -93,29 +93,35 @@ def huge_oracle(t):
     if fn.startswith("crc64") or fn == "check4":
         v = crc_sparse(head, nz, tail, 64)
         return "%d %d" % (v, v) if fn != "check4" else "%s %s" % ((v.to_bytes(8, "little").hex(),) * 2)
-    if fn == "sha256":
-        import mmap
-        mm = mmap.mmap(-1, size, flags=mmap.MAP_PRIVATE | mmap.MAP_ANONYMOUS | getattr(mmap, "MAP_NORESERVE", 0))
-        try:
-            mm[:HUGE_EDGE] = head
-            mm[size - HUGE_EDGE:size] = tail
-            mv = memoryview(mm)
-            d = hashlib.sha256(mv).hexdigest()
-            mv.release()
-        finally:
-            mm.close()
-        return d
+    if fn in ("sha256", "sha256p"):
+        h = hashlib.sha256()
+        h.update(head)
+        z = bytes(1 << 24)
+        left = nz
+        while left > 0:
+            k = min(left, len(z))
+            h.update(z[:k] if k < len(z) else z)
+            left -= k
+        h.update(tail)
+        return h.hexdigest()
     return "bad-op"
 
 
 def huge_cases(ctx):
     G = 4 * 1024 ** 3
+    H = 1 << 29     # 512 MiB: from here on the bit length needs more than 32 bits (carry into the high word)
     seed = ctx.rng.randrange(1, 1 << 30)
     if ctx.quick():
-        return ["huge %s %d %d" % (fn, size, seed) for size in (G + 64, G + 12345) for fn in ("crc32pub", "crc64pub")]
+        out = ["huge %s %d %d" % (fn, size, seed) for size in (G + 64, G + 12345) for fn in ("crc32pub", "crc64pub")]
+        out += ["huge sha256p %d %d" % (H, seed), "huge sha256 %d %d" % (H + 12345, seed)]
+        return out
     out = ["huge %s %d %d" % (fn, size, seed) for size in (G - 1, G + 64, G + 12345)
            for fn in ("crc32pub", "crc64pub", "crc32arch", "crc64arch", "crc32gen", "crc64gen")]
     out += ["huge check1 %d %d" % (G + 12345, seed), "huge check4 %d %d" % (G + 64, seed), "huge sha256 %d %d" % (G + 64, seed)]
+    out += ["huge sha256p %d %d" % (n, seed) for n in (H - 1, H, H + 12345, (1 << 30) + 5, 3 * H + 77, G - 1)]
+    out += ["huge sha256 %d %d" % (H + 12345, seed)]
+    # longest first, so that the 4 GiB SHA-256 passes overlap with everything else
+    out.sort(key=lambda ln: (0 if "sha256" in ln else 1, -int(ln.split()[2])))
     return out
 
 
